@@ -63,7 +63,7 @@ def fastShiftIdx (rel : Bool) (la lb : Nat) (idx : FIndex) (kb : List UInt8) (m0
 inductive PLoc where
   | arena (off len : Nat)
   | fresh (data : List Int)
-  deriving Repr
+  deriving Repr, DecidableEq
 
 def plLen : PLoc → Nat
   | .arena _ len => len
@@ -91,20 +91,26 @@ def plAppend2 (buf : List Int) : PLoc → Int → Int → List Int × PLoc
     else (buf, .fresh ((buf.drop off).take len ++ [x, y]))
   | .fresh d, x, y => (buf, .fresh (d ++ [x, y]))
 
-/-- the two extension statements of `PEAlign` (fast mode), reading `path[0]`, `path[len-1]`, `path[len-2]`
-through the slice; `none` = index out of range -/
+/-- `if path[0]*extra5 < 0 { path = append([]int{extra5, 0}, path...) } else { path[0] += extra5 }`,
+reading `path[0]` through the slice -/
+def extend5C (extra5 : Int) (buf : List Int) (pl : PLoc) : List Int × PLoc :=
+  let p0 := plGet buf pl 0
+  if p0 * extra5 < 0 then (buf, PLoc.fresh (extra5 :: 0 :: plList buf pl)) else plSet buf pl 0 (p0 + extra5)
+
+/-- `if path[len-1] == 0 && path[len-2]*extra3 >= 0 { path[len-2] += extra3 } else { path = append(path, extra3, 0) }` -/
+def extend3C (extra3 : Int) (buf : List Int) (pl : PLoc) : List Int × PLoc :=
+  let n := plLen pl
+  let last := plGet buf pl (n - 1)
+  let prev := plGet buf pl (n - 2)
+  if last = 0 ∧ prev * extra3 ≥ 0 then plSet buf pl (n - 2) (prev + extra3) else plAppend2 buf pl extra3 0
+
+/-- the two extension statements of `PEAlign` (fast mode); `none` = index out of range (a path of fewer than
+two cells) -/
 def extendC (extra5 extra3 : Int) (buf : List Int) (pl : PLoc) : Option (List Int × PLoc) :=
   if plLen pl < 2 then none
   else
-    let p0 := plGet buf pl 0
-    let st1 : List Int × PLoc :=
-      if p0 * extra5 < 0 then (buf, PLoc.fresh (extra5 :: 0 :: plList buf pl))   -- append([]int{extra5, 0}, path...)
-      else plSet buf pl 0 (p0 + extra5)                                           -- path[0] += extra5
-    let n := plLen st1.2
-    let last := plGet st1.1 st1.2 (n - 1)
-    let prev := plGet st1.1 st1.2 (n - 2)
-    if last = 0 ∧ prev * extra3 ≥ 0 then some (plSet st1.1 st1.2 (n - 2) (prev + extra3))
-    else some (plAppend2 st1.1 st1.2 extra3 0)
+    let st1 := extend5C extra5 buf pl
+    some (extend3C extra3 st1.1 st1.2)
 
 /-- `path = arena.pointer.path[:0]; path = append(path, 0, partLen)` -/
 def identicalPath (buf : List Int) (partLen : Int) : List Int × PLoc :=
